@@ -2288,10 +2288,11 @@ class Side:
         self._export_disp_rowset('alphas', 'alpha', buffer, ind, size)
 
         buffer.write(f'{ind}\t\ttriangle_tags\n{ind}\t\t{{\n')
-        for y in range(size):
+        # One pair per quad, so there's one less row and column than vertexes.
+        for y in range(size - 1):
             row = [
                 f'{vert.triangle_a.value} {vert.triangle_b.value}'
-                for vert in self._disp_verts[size * y:size * (y+1)]
+                for vert in self._disp_verts[size * y:size * (y+1) - 1]
             ]
             buffer.write(f'{ind}\t\t"row{y}" "{" ".join(row)}"\n')
         buffer.write(ind + '\t\t}\n')
